@@ -24,6 +24,7 @@ type FieldDesc struct {
 	PtrNil   bool
 	Init     string // model value syntax
 	Cb       int
+	Plain    bool // a field without any go-flags tag (nor anything tagged inside): the library must leave it alone
 }
 
 type StructDesc struct {
